@@ -84,6 +84,27 @@ class FilesystemIsolation(ContextDecorator):
             if p is not None:
                 self._created.discard(self._abspath(p))
 
+    def _check_isolated(self, path: os.PathLike | str) -> None:
+        """Refuse to write to a path that was not created inside the isolation.
+
+        A path is isolated if it or one of its parent directories was created inside
+        the isolation or is the temporary directory of the isolation.
+
+        Args:
+            path: The existing path that is about to be overwritten or replaced
+
+        Raises:
+            PermissionError: If the path is not isolated
+        """
+        abs_path = self._abspath(path)
+        tmp_dir = self._abspath(self._tmp.name)
+        current = abs_path
+        while current not in self._created and current != tmp_dir:
+            parent = os.path.dirname(current)  # noqa: PTH120
+            if parent == current:
+                raise PermissionError(f"Attempted to modify non-isolated path: {abs_path}")
+            current = parent
+
     @staticmethod
     def _is_write_mode(mode: str) -> bool:
         """Check if a mode is write mode."""
@@ -109,8 +130,14 @@ class FilesystemIsolation(ContextDecorator):
         record_arg_idx: int | None = None,
         record_dst_idx: int | None = None,
         forget_arg_idx: int | None = None,
+        dst_may_be_dir: bool = False,
     ) -> Callable:
-        """Create a tracked wrapper that uses positional indices."""
+        """Create a tracked wrapper that uses positional indices.
+
+        With ``dst_may_be_dir`` an existing directory is a legal destination that is
+        not replaced itself: the function puts its results into that directory by
+        calling other tracked functions with the real destinations.
+        """
 
         @functools.wraps(original_func)
         def tracked_method(*args, **kwargs):
@@ -121,11 +148,19 @@ class FilesystemIsolation(ContextDecorator):
                 if abs_forget not in self._created:
                     raise PermissionError(f"Attempted to modify non-isolated path: {abs_forget}")
 
+            rec = self._get_arg(args, kwargs, record_arg_idx)
+            dst = self._get_arg(args, kwargs, record_dst_idx)
+            # only allow overwriting or replacing a destination that is isolated
+            if (
+                dst is not None
+                and os.path.lexists(dst)
+                and not (dst_may_be_dir and os.path.isdir(dst))  # noqa: PTH112
+            ):
+                self._check_isolated(dst)
+
             res = original_func(*args, **kwargs)
 
             try:
-                rec = self._get_arg(args, kwargs, record_arg_idx)
-                dst = self._get_arg(args, kwargs, record_dst_idx)
                 self._record_created(rec, dst)
             except Exception:  # noqa: BLE001
                 _LOGGER.warning("Failed to update bookkeeping for %s", original_func)
@@ -148,6 +183,18 @@ class FilesystemIsolation(ContextDecorator):
             # second positional arg may be mode, or kwargs['mode']
             file_arg = args[0] if args else kwargs.get("file")
             mode = kwargs.get("mode", args[1] if len(args) > 1 else "r")
+            # a file descriptor is not a path
+            path = None if isinstance(file_arg, int) else file_arg
+            # only allow writing to an existing file if it is isolated; an exclusive
+            # creation fails anyway
+            if (
+                isinstance(mode, str)
+                and self._is_write_mode(mode)
+                and "x" not in mode
+                and path is not None
+                and os.path.isfile(path)  # noqa: PTH113
+            ):
+                self._check_isolated(path)
             f = original_func(*args, **kwargs)
             if isinstance(mode, str) and self._is_write_mode(mode):
                 try:
@@ -175,6 +222,11 @@ class FilesystemIsolation(ContextDecorator):
         @functools.wraps(original_func)
         def tracked_os_open(path, flags, *args, **kwargs):
             should_record = bool(flags & write_flags)
+            # only allow writing to an existing file if it is isolated; an exclusive
+            # creation fails anyway
+            exclusive = os.O_CREAT | os.O_EXCL
+            if should_record and flags & exclusive != exclusive and os.path.isfile(path):  # noqa: PTH113
+                self._check_isolated(path)
             fd = original_func(path, flags, *args, **kwargs)
             if should_record:
                 try:
@@ -213,10 +265,10 @@ class FilesystemIsolation(ContextDecorator):
             (os, "rename"): {"forget_arg_idx": 0, "record_dst_idx": 1},
             (os, "replace"): {"forget_arg_idx": 0, "record_dst_idx": 1},
             (shutil, "copyfile"): {"record_dst_idx": 1},
-            (shutil, "copy"): {"record_dst_idx": 1},
-            (shutil, "copy2"): {"record_dst_idx": 1},
-            (shutil, "copytree"): {"record_dst_idx": 1},
-            (shutil, "move"): {"forget_arg_idx": 0, "record_dst_idx": 1},
+            (shutil, "copy"): {"record_dst_idx": 1, "dst_may_be_dir": True},
+            (shutil, "copy2"): {"record_dst_idx": 1, "dst_may_be_dir": True},
+            (shutil, "copytree"): {"record_dst_idx": 1, "dst_may_be_dir": True},
+            (shutil, "move"): {"forget_arg_idx": 0, "record_dst_idx": 1, "dst_may_be_dir": True},
             (Path, "mkdir"): {"record_arg_idx": 0},
             (Path, "touch"): {"record_arg_idx": 0},
             (Path, "write_text"): {"record_arg_idx": 0},
